@@ -13,6 +13,7 @@ import (
 	"sort"
 	"strings"
 	"sync"
+	"sync/atomic"
 	"time"
 
 	"github.com/invopop/gobl"
@@ -501,7 +502,7 @@ func init() {
 					id++
 					op := Op{ID: id, K: "req", N: s, S: Pick(r, []string{"ping", "ping", "build", "validate", "sign", "verify", "schemas", "regime", "sleep", "unknown", "keygen"}), S2: Pick(r, docs).Name, B: Chance(r, 0.2)}
 					if op.S == "sleep" {
-						op.I = Pick(r, []int64{1000, 50000, 1000000, 3000000})
+						op.I = Pick(r, []int64{1000, 50000, 1000000, 3000000, 3000000, 120000000, 260000000}) // now and then long enough for a handler's own timers to fire
 					}
 					p.Ops = append(p.Ops, op)
 				}
@@ -555,7 +556,19 @@ func execRaceBulk(x *X) {
 				code, body := 0, []byte(nil)
 				req := httptest.NewRequest(http.MethodPost, "/bulk", bytes.NewReader(st.input))
 				rec := httptest.NewRecorder()
-				server.ServeHTTP(rec, req)
+				// an http.ResponseWriter is for one goroutine at a time; a client that is slow to
+				// take what is written (every fourth run) keeps each Write open long enough for a
+				// handler's own timers to fire meanwhile
+				srw := &strictRW{rw: rec}
+				if x.P.Run%4 == 1 {
+					srw.hold = 20 * time.Millisecond
+				}
+				server.ServeHTTP(srw, req)
+				if n := srw.overlaps.Load(); n > 0 {
+					overlapMu.Lock()
+					overlapTotal += n
+					overlapMu.Unlock()
+				}
 				code, body = rec.Code, rec.Body.Bytes()
 				_ = code
 				dec := json.NewDecoder(bytes.NewReader(body))
@@ -575,6 +588,12 @@ func execRaceBulk(x *X) {
 	}
 	close(start)
 	wg.Wait()
+	overlapMu.Lock()
+	if overlapTotal > 0 {
+		x.Violate("response-writer-used-concurrently", "the /bulk handler called its http.ResponseWriter from two goroutines at the same time (%d overlapping calls)", overlapTotal)
+		overlapTotal = 0
+	}
+	overlapMu.Unlock()
 	for _, st := range streams {
 		st.httpOut = nil
 		style := st.style
@@ -585,4 +604,46 @@ func execRaceBulk(x *X) {
 	x.R.Nontrivial = true
 	x.Probe("race-bulk-workload-completed")
 	x.Log.Event(0, 0, "racebulk", "done", fmt.Sprint(n))
+}
+
+var (
+	overlapMu    sync.Mutex
+	overlapTotal int64
+)
+
+// strictRW wraps a response writer and counts calls that overlap in time.
+type strictRW struct {
+	rw       http.ResponseWriter
+	busy     atomic.Int32
+	overlaps atomic.Int64
+	hold     time.Duration
+}
+
+func (s *strictRW) enter() {
+	if !s.busy.CompareAndSwap(0, 1) {
+		s.overlaps.Add(1)
+	}
+}
+func (s *strictRW) leave()              { s.busy.Store(0) }
+func (s *strictRW) Header() http.Header { return s.rw.Header() }
+func (s *strictRW) WriteHeader(c int) {
+	s.enter()
+	s.rw.WriteHeader(c)
+	s.leave()
+}
+func (s *strictRW) Write(p []byte) (int, error) {
+	s.enter()
+	if s.hold > 0 {
+		time.Sleep(s.hold)
+	}
+	n, err := s.rw.Write(p)
+	s.leave()
+	return n, err
+}
+func (s *strictRW) Flush() {
+	s.enter()
+	if f, ok := s.rw.(http.Flusher); ok {
+		f.Flush()
+	}
+	s.leave()
 }
